@@ -453,6 +453,42 @@ class Models:
         p = I.variant_fields(st, v, 1, 1)[0]
         return self.call_closure(I, st, fr, t, args[1], [p], 'id', (cont[1], cont[2]))
 
+    def m_option_map_or(self, I, st, fr, t, c, np, args, cont):
+        """std::option::Option::map_or|std::option::Option::is_some_and|std::option::Option::is_none_or"""
+        v = args[0]
+        idx = I.variant_of(st, v, OPT_V, OPTION)
+        if idx == 0:
+            if np.endswith('map_or'):
+                return self.finish(I, st, fr, t, cont, args[1])
+            return self.finish(I, st, fr, t, cont, INT(0 if np.endswith('is_some_and') else 1))
+        p = I.variant_fields(st, v, 1, 1)[0]
+        f = args[2] if np.endswith('map_or') else args[1]
+        return self.call_closure(I, st, fr, t, f, [p], 'id', (cont[1], cont[2]))
+
+    def m_option_map_or_else(self, I, st, fr, t, c, np, args, cont):
+        """std::option::Option::map_or_else"""
+        v = args[0]
+        idx = I.variant_of(st, v, OPT_V, OPTION)
+        if idx == 0:
+            return self.call_closure(I, st, fr, t, args[1], [], 'id', (cont[1], cont[2]))
+        return self.call_closure(I, st, fr, t, args[2], [I.variant_fields(st, v, 1, 1)[0]], 'id', (cont[1], cont[2]))
+
+    def m_result_map_or(self, I, st, fr, t, c, np, args, cont):
+        """std::result::Result::map_or|std::result::Result::is_ok_and|std::result::Result::is_err_and"""
+        v = args[0]
+        idx = I.variant_of(st, v, RES_V, RESULT)
+        want = 1 if np.endswith('is_err_and') else 0
+        if idx != want:
+            if idx == 1:
+                I.emit(st, fr, {'k': 'tested', 'val': v, 'how': np})
+            if np.endswith('map_or'):
+                I.emit(st, fr, {'k': 'discard_err', 'val': I.variant_fields(st, v, 1, 1)[0], 'how': np})
+                return self.finish(I, st, fr, t, cont, args[1])
+            return self.finish(I, st, fr, t, cont, INT(0))
+        p = I.variant_fields(st, v, idx, 1)[0]
+        f = args[2] if np.endswith('map_or') else args[1]
+        return self.call_closure(I, st, fr, t, f, [p], 'id', (cont[1], cont[2]))
+
     def m_option_unwrap_or_else(self, I, st, fr, t, c, np, args, cont):
         """std::option::Option::unwrap_or_else|std::option::Option::or_else"""
         v = args[0]
